@@ -209,9 +209,9 @@ def is_other_branch(C, B, z, principal, tol=1e-7):
     and C differs from the reference value `principal`.)"""
     from fractions import Fraction
 
-    fr = Fraction(z).limit_denominator(60)
+    fr = Fraction(z).limit_denominator(2000)
     p, q = fr.numerator, fr.denominator
-    if abs(float(fr) - z) > 1e-12 or C.shape != B.shape:
+    if abs(float(fr) - z) > 1e-12 or fr.denominator > 400 or C.shape != B.shape:
         return False
     Bp = np.linalg.matrix_power(B if p >= 0 else B.conj().T, abs(p))
     if not np.allclose(np.linalg.matrix_power(C, q), Bp, atol=tol):
